@@ -18,6 +18,7 @@ import (
 	"encoding/asn1"
 	"encoding/hex"
 	"encoding/pem"
+	"fmt"
 	"math/big"
 	"net"
 
@@ -809,6 +810,44 @@ func c18corpus(r *rng) []*c18item {
 			items = append(items, &c18item{dec: dec, data: parts[j], extra: c18Pwd, form: c18fDER, wrap: wrap, light: i > 0})
 		}
 	}
+	// the PKCS#8 parser behind the shrouded key bag, directly: SM2 and P-256 keys, and the same structure naming
+	// curves the package does not know (secp256k1, brainpoolP256r1, one arc of the SM2 curve OID changed), in the
+	// AlgorithmIdentifier, in the ECPrivateKey, in both, in neither
+	{
+		type ecPriv struct {
+			Version       int
+			PrivateKey    []byte
+			NamedCurveOID asn1.ObjectIdentifier `asn1:"optional,explicit,tag:0"`
+			PublicKey     asn1.BitString        `asn1:"optional,explicit,tag:1"`
+		}
+		type p8t struct {
+			Version    int
+			Algo       pkix.AlgorithmIdentifier
+			PrivateKey []byte
+		}
+		ecPub := asn1.ObjectIdentifier{1, 2, 840, 10045, 2, 1}
+		curves := []asn1.ObjectIdentifier{{1, 2, 156, 10197, 1, 301}, {1, 2, 840, 10045, 3, 1, 7}, {1, 3, 132, 0, 10}, {1, 3, 36, 3, 3, 2, 8, 1, 1, 7}, {1, 2, 156, 10197, 1, 300}, nil}
+		dBytes := f.k.D.FillBytes(make([]byte, 32))
+		for i, outer := range curves {
+			for j, inner := range curves {
+				if i > 1 && j > 1 && i != j {
+					continue
+				}
+				ec, err := asn1.Marshal(ecPriv{Version: 1, PrivateKey: dBytes, NamedCurveOID: inner})
+				c18must(err)
+				al := pkix.AlgorithmIdentifier{Algorithm: ecPub}
+				if outer != nil {
+					ob, err := asn1.Marshal(outer)
+					c18must(err)
+					al.Parameters = asn1.RawValue{FullBytes: ob}
+				}
+				b, err := asn1.Marshal(p8t{Version: 0, Algo: al, PrivateKey: ec})
+				c18must(err)
+				it := add("pkcs12.ParsePKCS8PrivateKey", c18fDER, b)
+				it.light = !(i == 0 && j == 0)
+			}
+		}
+	}
 	bmp, err := pkcs12.VerifBmpString("pässwörd 密码")
 	c18must(err)
 	add("pkcs12.decodeBMPString", c18fRaw, bmp)
@@ -890,6 +929,21 @@ func genC18(r *rng, tier string, emit func(string)) {
 	items := c18corpus(r)
 	for _, it := range items {
 		g.derive(it)
+	}
+	// every decoder once more as the FIRST thing a fresh process does (nothing has touched the curve, the pools or
+	// any lazily built table yet): the genuine input, and the input cut in half
+	coldSeen := map[string]bool{}
+	for _, it := range items {
+		if coldSeen[it.dec] {
+			continue
+		}
+		coldSeen[it.dec] = true
+		data := it.data
+		if it.wrap != nil {
+			data = it.wrap(it.data)
+		}
+		emit(fmt.Sprintf("colddec %s %s %s", it.dec, hx(data), hx(it.extra)))
+		emit(fmt.Sprintf("colddec %s %s %s", it.dec, hx(data[:len(data)/2]), hx(it.extra)))
 	}
 	// the handshake message parsers, compared with Model.TLSMessages field by field (harness/c15codec.go):
 	// every truncation, boundary cuts, resize mutations
